@@ -2239,6 +2239,13 @@ impl<'a> CompilerState<'a> {
                     self.included_assembler
                         .push((str.into(), filename, codesize, bank));
                 }
+                Rule::func_vec_decl => {
+                    // Accepted by the grammar, but not implemented yet
+                    return Err(self.syntax_error(
+                        "Arrays of function pointers are not implemented",
+                        pair.as_span().start(),
+                    ));
+                }
                 _ => {
                     debug!("What's this ? {:?}", pair);
                     unreachable!()
